@@ -857,3 +857,11 @@ M("c09-neutral-rename-copyback-iterators", "C09", "cola/libvpsc/rectangle.cpp",
 M("c15-router-dtor-ignores-queued-additions", "C15", "cola/libavoid/router.cpp",
   "    for (ActionInfoList::iterator act = actionList.begin();\n            act != actionList.end(); ++act)\n    {\n        if ((act->type == ShapeAdd) || (act->type == JunctionAdd))\n        {\n            queuedObstacles.push_back(act->obstacle());\n        }\n        else if ((act->type == ConnChange) && !act->conn()->m_active)\n        {\n            queuedConns.push_back(act->conn());\n        }\n    }\n",
   "", mention=["ROUTER-DTOR-QUEUED"])
+
+# ---------------------------------------------------------------- C07 round e
+M("c07-locks-written-over-projection", "C07", "cola/libcola/colafd.cpp",
+  "        project(vs,cs,coords);\n        moveBoundingBoxes();", "        project(vs,cs,coords);\n        for (DesiredPositionsInDim::const_iterator d=des.begin(); d!=des.end(); ++d) { coords[d->first] = d->second; }\n        moveBoundingBoxes();",
+  mention=["PROJECTION-IS-FINAL"])
+M("c07-cursor-not-rewound-for-combined", "C07", "cola/libcola/colafd.cpp",
+  "        cc->markAllSubConstraintsAsInactive();\n        bool subConstraintSatisfiable = true;\n", "        bool subConstraintSatisfiable = true;\n        if (!cc->shouldCombineSubConstraints()) cc->markAllSubConstraintsAsInactive();\n",
+  mention=["MAKEFEASIBLE-PROTOCOL", "cursor"])
